@@ -140,6 +140,10 @@ pub enum Command<E: Effect> {
     /// subscription simply ignores it.
     Unsubscribe { subscription_id: u64 },
 
+    /// Report the termination of a process with [`Event::ProcessTerminated`], at once if it has
+    /// terminated already. Sent for a process that owns resources, which are closed then.
+    WatchProcess { process_id: ProcessId },
+
     /// Effect operation completed
     EffectCompletion {
         process_id: ProcessId,
@@ -248,6 +252,9 @@ pub enum Event<E: Effect> {
 
     /// Request effect operation from Environment
     EffectRequest { process_id: ProcessId, effect: E },
+
+    /// A watched process (see [`Command::WatchProcess`]) has terminated
+    ProcessTerminated { process_id: ProcessId },
 
     // Phantom data to maintain generic parameter
     #[serde(skip)]
